@@ -545,8 +545,23 @@ func runC18(c *Ctx) {
 		key := "sni@" + funcName(f)
 		good := false
 		if cl, ok := st.Val.(*ssa.Call); ok && trp != nil && staticCallee(cl) == trp {
-			r := tr.origins(cl.Call.Args[0])
-			good = len(r) == 1 && isTrimCall(r[0])
+			// in a NEW helper shared by the TLS cases the host is a parameter: every call site hands over the trimmed
+			// URL host
+			r := tr.originsNH(cl.Call.Args[0])
+			good = len(r) > 0
+			for _, o := range r {
+				if !isTrimCall(o) {
+					good = false
+				}
+			}
+			if good && f != nu && f.Parent() == nil {
+				// one helper used by several cases counts once per case
+				if sites, _ := callSitesOf(f); len(sites) > 1 {
+					for i := 1; i < len(sites); i++ {
+						c.ok(fmt.Sprintf("%s#%d", key, i), instrPos(sites[i]), "ServerName defaulted by the shared helper")
+					}
+				}
+			}
 		}
 		if cl, ok := st.Val.(*ssa.Call); ok && callName(cl) == "(*net/url.URL).Hostname" && hostBracketed {
 			// the parsed address URL itself
